@@ -39,6 +39,18 @@ class AbsBytes(S.Sym):
     def __repr__(self):
         return f"AbsBytes({self.prefix}, rest-from {self.frm})" if self.with_rest else f"AbsBytes({self.prefix})"
 
+    def __add__(self, other):
+        if isinstance(other, AbsBytes) and not self.with_rest:
+            return AbsBytes(self.prefix + other.prefix, other.frm, with_rest=other.with_rest, limited=other.limited)
+        if isinstance(other, (bytes, bytearray)) and not self.with_rest:
+            return AbsBytes(self.prefix + list(other), self.frm, with_rest=False)
+        return NotImplemented
+
+    def __radd__(self, other):
+        if isinstance(other, (bytes, bytearray)):
+            return AbsBytes(list(other) + self.prefix, self.frm, with_rest=self.with_rest, limited=self.limited)
+        return NotImplemented
+
 
 class AbsSource:
     """abstract byte source: the only operations allowed on it are iter() and next(); anything else is recorded"""
@@ -231,6 +243,12 @@ def unit_pump(mode, tpm_type_name="Command"):
         def bytes_model(I, args, kwargs):
             if args and isinstance(args[0], AbsBytes):
                 return args[0]
+            if args and args[0] is source:
+                source.ops.append("drain")
+                return AbsBytes([], G.pulled, with_rest=True)
+            if len(args) == 1 and isinstance(args[0], S.SInt):
+                # bytes(n): n zero bytes - whatever n is, these are not the bytes of the input
+                return AbsBytes([("zero-bytes", args[0])], G.pulled, with_rest=False)
             from pyvc import models as Mo
             return (yield from Mo.m_bytes(I, args, kwargs))
 
